@@ -366,7 +366,8 @@ theorem join_success (E : BlockCipher) (hE : E.Lawful) (q : Req) (c : Conf) (nwk
 /-- a join-request whose frame and IDs parse but whose MIC does not verify is answered MICFailed -/
 theorem serve_wrong_mic (E : BlockCipher) (q : Req) (c : Conf) (nwkKey appKey : Bytes) (nonce : Int) (phy : PHY) (netID joinEUI : Nat)
     (je de : BitVec 64) (dn : BitVec 16)
-    (hr : q.rejoin = false) (hd : c.device = some (nwkKey, appKey, nonce)) (hp : PHY.dec q.phy = ok phy) (hn : idOfText 3 q.sender = ok netID)
+    (hr : q.rejoin = false) (hd : c.device = some (nwkKey, appKey, nonce)) (hlf : c.lookupFails = false)
+    (hp : PHY.dec q.phy = ok phy) (hn : idOfText 3 q.sender = ok netID)
     (hj : idOfText 8 q.receiver = ok joinEUI) (hpl : phy.payload = some (.joinReq je de dn))
     (hm : validateMIC phy (calcUplinkJoinMIC E nwkKey phy) = ok false) :
     (serve E q c).result = "MICFailed" ∧ (serve E q c).code = 200 := by
@@ -377,7 +378,16 @@ theorem serve_wrong_mic (E : BlockCipher) (q : Req) (c : Conf) (nwkKey appKey : 
   have hflow : joinFlow E q c nwkKey appKey nonce = .error .mic := by
     unfold joinFlow; rw [hctx]; rfl
   unfold serve
-  simp only [hd, hr, Bool.false_eq_true, if_false, hflow]
+  simp only [hd, hr, hlf, Bool.false_eq_true, if_false, hflow]
+  trivial
+
+/-- a key-encryption-key or label lookup that fails never yields a Success answer (which would carry session keys in clear or
+under a key the receiver does not hold) -/
+theorem serve_lookup_fails (E : BlockCipher) (q : Req) (c : Conf) (d : Bytes × Bytes × Int) (hd : c.device = some d) (hlf : c.lookupFails = true) :
+    (serve E q c).result = "Other" ∧ (serve E q c).code = 500 ∧ (serve E q c).phy = [] ∧ (serve E q c).appSKey = none ∧ (serve E q c).nwkSKey = none := by
+  obtain ⟨a, b, n⟩ := d
+  unfold serve
+  simp only [hd, hlf, if_true]
   trivial
 
 theorem rejoinBody_keys (E : BlockCipher) (hE : E.Lawful) (c : Conf) (ks : Keys) (b : Bytes) (body : Body)
